@@ -141,7 +141,7 @@ Section M.
 Variable t : tab.
 Variable T : N.
 Notation mstep := (dstep (ser_of t) crc32u).
-Notation mrestart := (restart (deser_of t) crc32u gen_tx_tail_repair gen_vote_first_wins).
+Notation mrestart := (restart (deser_of t) crc32u gen_tx_tail_repair gen_vote_scan_live gen_vote_first_wins).
 
 Fixpoint run_obs (d : dcoord) (steps : list step_in) : dcoord * list step_out * list cobs * list N :=
   match steps with
